@@ -20,6 +20,19 @@ Check (C08_rollback_exact :
   let st' := fst (step st r) in
   cfg_eq (s_fabs st') (s_fabs st0) /\ s_nets st' = s_nets st0 /\ s_bc st' = s_bc st0 /\
   s_kv st' = s_kv st0 /\ s_fs st' = Idle).
+Check (C08_rollback_exact_outside_classes :
+  forall st0 s t bc ops r,
+  Inv st0 -> s_fs st0 = Idle -> t <> 0 ->
+  snd (step st0 (OArm s t bc)) = StOk ->
+  let st1 := fst (step st0 (OArm s t bc)) in
+  in_scope st1 ops ->
+  let st := exec st1 ops in
+  rollback_op r -> snd (step st r) = StOk ->
+  let st' := fst (step st r) in
+  cfg_eq (s_fabs st') (s_fabs st0) /\ s_nets st' = s_nets st0 /\ s_bc st' = s_bc st0 /\
+  s_kv st' = s_kv st0 /\ s_fs st' = Idle).
+Check (C08_store_writers :
+  forall st o, may_store st o = is_complete o || outside_write st o || vid_leak st o).
 Check (C08_store_frozen_under_failsafe :
   forall st o, may_store st o = false -> s_kv (fst (step st o)) = s_kv st).
 Check (C08_rollback_to_durable :
@@ -75,6 +88,17 @@ Check (C08_order_complete :
   s_fs st = Armed sfab fl -> spec_step fl c = Some fl' ->
   side_conditions st c sfab p ->
   snd (step st o) = StOk).
+Check (C08_flags_only_by_credential_commands :
+  forall st o,
+  cred_of o = None ->
+  match s_fs (fst (step st o)) with
+  | Idle => True
+  | Armed _ fl' =>
+    match s_fs st with
+    | Idle => fl' = fl_empty
+    | Armed _ fl => fl' = fl
+    end
+  end).
 Check (C08_order_language :
   (forall w, spec_accepts w = true <-> In w spec_words) /\
   (forall f c f', spec_step f c = Some f' -> spec_step f' c = None)).
@@ -102,3 +126,11 @@ Check (C08_context_switch_witness :
    fget 1 (s_fabs st) <> fget 1 (k_fabs (s_kv st)) /\
    fget 1 (k_fabs (s_kv st)) = fget 1 (s_fabs w_init2)) /\
   ~ safe_run w_init2 w_switch).
+Check (C08_vid_statement_witness :
+  let st := exec w_init2 w_vid in
+  s_fs st = Idle /\
+  option_map f_acl (fget 1 (s_fabs st)) = Some [ADMIN; 5] /\
+  option_map f_acl (fget 1 (k_fabs (s_kv st))) = Some [ADMIN; 5] /\
+  option_map f_acl (fget 1 (s_fabs w_init2)) = Some [ADMIN] /\
+  safe_run w_init2 w_vid /\ ~ nothing_stored w_init2 w_vid /\
+  vid_leak (exec w_init2 [OArm (SC 1) 60 5; OAclW (SC 1) 5 false]) (OVid (SC 1) 65522 false) = true).
